@@ -72,6 +72,10 @@ Ltac gen1 P32 C32 P64 C64 :=
   end.
 Ltac clear_unused := repeat match goal with H : _ |- _ => clear H end.   (* per-goal cost of case/destruct grows with the context *)
 Ltac destruct_bools := repeat match goal with b : bool |- _ => destruct b end.
-Ltac solve_z P32 C32 P64 C64 CHK unlock :=
-  vm_compute; try reflexivity; repeat (gen1 P32 C32 P64 C64);
+Ltac solve_z P32 C32 P64 C64 CHK unlock lits :=
+  vm_compute; try reflexivity; lits; cbv beta iota; try reflexivity; repeat (gen1 P32 C32 P64 C64);
   unlock; clear_unused; destruct_bools; vm_compute; try reflexivity; repeat (step; vm_compute; try reflexivity).
+
+(* variant for functions dominated by index / enum arithmetic (Euler orders): integer primitives concrete from the start *)
+Ltac solve_zc unlock lits :=
+  unlock; vm_compute; try reflexivity; lits; vm_compute; try reflexivity; clear_unused; repeat (step; vm_compute; try reflexivity).
